@@ -34,7 +34,7 @@ Eval(row, c) ==
 \* (DESIGN section 7). dev = {} is the property-level reference semantics; a non-empty dev gives
 \* the semantics the current code is known to have instead, used only to recognise a listed
 \* known finding precisely (a violation that is not explained by it is still reported).
-RECURSIVE ChainVal(_, _, _), UnitVal(_, _, _), Members(_), UnitPos(_, _, _)
+RECURSIVE ChainVal(_, _, _), UnitVal(_, _, _), Members(_), UnitPos(_, _, _), F15Val(_, _, _)
 
 IsEmptyUnit(u) == u.form = "empty"
 Effective(ch) == SelectSeq(ch, LAMBDA u : ~IsEmptyUnit(u))
@@ -66,11 +66,17 @@ MemberVal(row, u, m, dev) ==
 \* (members are groups, raw strings, Not/And/Or expressions) is rendered NOT (m1 AND m2 ...), a member
 \* that is an OR expression being joined with OR; it deviates when a second or later member is not
 \* an OR expression.
+\* (a sub-builder holding a single Where call of one condition is that condition)
+RECURSIVE NoNativeUnit(_)
+NoNativeUnit(u) ==
+  \/ u.conn = "N"
+  \/ u.form \in {"raw", "named"}
+  \/ (u.form = "group" /\ LET sub == Effective(u.sub) IN
+                            ~(Len(sub) = 1 /\ sub[1].conn = "W" /\ ~NoNativeUnit(sub[1])))
+  \/ (u.form \notin {"raw", "named", "group"} /\ u.ast.k # "atom")
 NoNative(m) ==
   CASE m.kind = "ast"  -> m.ast.k # "atom"
-    [] m.kind = "unit" -> \/ m.unit.form \in {"raw", "named", "group"}
-                          \/ m.unit.conn = "N"
-                          \/ m.unit.ast.k # "atom"
+    [] m.kind = "unit" -> NoNativeUnit(m.unit)
     [] OTHER -> TRUE
 IsOrGroup(m) == m.kind = "ast" /\ m.ast.k = "or"
 F8Members(ms) == /\ Len(ms) >= 2
@@ -80,9 +86,10 @@ F8Members(ms) == /\ Len(ms) >= 2
 MRunOf(ms, i) == Cardinality({j \in 2..i : IsOrGroup(ms[j])})
 
 \* F15 (known finding): Not over a grouped sub-builder that contains Or (an OR unit, to be negated
-\* as a whole) is flattened and negated member by member when some member has a native negation.
-\* (No exact alternative semantics is given for it: raw members are additionally left without
-\* parentheses in that branch. It is recognised by its shape only.)
+\* as a whole) is flattened and negated member by member, the negations AND-ed, when some member
+\* has a native negation.  That is right for a group that is an OR of single conditions
+\* (NOT (a OR b) = NOT a AND NOT b) and wrong as soon as the group has an AND-run of two or more.
+\* dev "f15" gives exactly that alternative semantics (F15Val below).
 RECURSIVE GroupCore(_)
 GroupCore(u) == IF u.form = "group" /\ Len(Effective(u.sub)) = 1 /\ Effective(u.sub)[1].conn = "W"
                    /\ Effective(u.sub)[1].form = "group"
@@ -93,8 +100,15 @@ F15Unit(u) ==
        /\ \E i \in 2..Len(sub) : sub[i].conn = "O"
        /\ \E i \in DOMAIN sub : sub[i].conn = "W" /\ ~NoNative([kind |-> "unit", unit |-> sub[i]])
 
+\* the current code's reading of a Not over an F15-shaped group: every call of the sub-builder
+\* negated on its own (a map / struct of several columns is one AND group), all AND-ed
+F15Val(row, u, dev) ==
+  LET sub == Effective(GroupCore(u).sub) IN
+  AndSet({Not3(UnitVal(row, sub[i], dev)) : i \in DOMAIN sub})
+
 UnitVal(row, u, dev) ==
-  IF u.conn = "N"
+  IF u.conn = "N" /\ "f15" \in dev /\ F15Unit(u) THEN F15Val(row, u, dev)
+  ELSE IF u.conn = "N"
   THEN LET ms == Members(u) IN
        IF Len(ms) >= 2
        THEN IF "f8" \in dev /\ F8Members(ms)
